@@ -29,7 +29,8 @@ impl DateTime {
             n.has_tag_name("isAtomicClockReferenced") && n.attribute("type") == Some("Integer")
         });
         let atomic_reference = if let Some(node) = atomic_reference_node {
-            node.text().unwrap_or("0").trim() == "1"
+            // Any valid integer representation of one (e.g. "1", "+1" or "01") means true
+            node.text().unwrap_or("0").trim().parse::<i64>() == Ok(1)
         } else {
             return Ok(None);
         };
